@@ -617,6 +617,90 @@ func extractFacts(repo string) (string, error) {
 	facts["httpClosesPreviousResponse"] = closesPrev
 	facts["httpReleaseOnBodyClose"] = releaseOnClose
 
+	// 13. access table of the shared structs (C14)
+	arows, underLock, _ := accessTable(repo)
+	allAcc, unguarded := accessStrings(arows)
+	facts["accessTable"] = allAcc
+	facts["unguardedAccesses"] = unguarded
+	facts["callsUnderLock"] = underLock
+
+	// 14. which call sites hand the live execution (not a copy) to user code
+	live := []string{}
+	for _, e := range [][3]string{
+		{"retrypolicy/retryexecutor.go", "executor", "Apply"}, {"retrypolicy/retryexecutor.go", "executor", "OnFailure"},
+		{"hedgepolicy/hedgeexecutor.go", "executor", "Apply"}, {"ratelimiter/ratelimiterexecutor.go", "executor", "Apply"},
+		{"bulkhead/bulkheadexecutor.go", "executor", "PreExecute"}, {"cachepolicy/cacheexecutor.go", "executor", "PreExecute"},
+		{"cachepolicy/cacheexecutor.go", "executor", "PostExecute"}, {"timeout/timeoutexecutor.go", "executor", "Apply"},
+		{"fallback/fallbackexecutor.go", "executor", "Apply"}, {"circuitbreaker/circuitbreaker.go", "circuitBreaker", "transitionTo"},
+		{"policy/policyexecutor.go", "BaseExecutor", "OnSuccess"}, {"policy/policyexecutor.go", "BaseExecutor", "OnFailure"},
+		{"executor.go", "executor", "execute"},
+	} {
+		fd := fx.fn(e[0], e[1], e[2])
+		if fd == nil {
+			continue
+		}
+		ast.Inspect(fd.Body, func(n ast.Node) bool {
+			c, ok := n.(*ast.CallExpr)
+			if !ok {
+				return true
+			}
+			fn := srcOf(c.Fun)
+			user := strings.Contains(fn, ".on") || strings.HasSuffix(fn, "delayFunc") || strings.HasSuffix(fn, "getDelay") || strings.HasSuffix(fn, "ComputeDelay") || strings.HasSuffix(fn, ".fn") || strings.HasPrefix(fn, "e.on")
+			if !user {
+				return true
+			}
+			for _, a := range c.Args {
+				as := srcOf(a)
+				if as == "exec" || as == "execInternal" || as == "parentExecution" || strings.Contains(as, "ExecutionAttempt: exec,") || strings.Contains(as, "ExecutionAttempt: exec}") ||
+					strings.Contains(as, "ExecutionAttempt: execInternal}") || strings.Contains(as, "ExecutionAttempt: execInternal,") {
+					live = append(live, e[0]+":"+e[1]+"."+e[2]+" "+fn)
+				}
+			}
+			return true
+		})
+	}
+	sort.Strings(live)
+	facts["liveExecutionToUserCode"] = live
+
+	// 15. library call sites of the execution's unlocked getters (outside execution.go)
+	getters := []string{}
+	filepath.Walk(repo, func(p string, info os.FileInfo, err error) error {
+		if err != nil {
+			return nil
+		}
+		if info.IsDir() && (info.Name() == "examples" || info.Name() == "testutil" || info.Name() == "policytesting" || info.Name() == "test" || info.Name() == ".git") {
+			return filepath.SkipDir
+		}
+		if !strings.HasSuffix(p, ".go") || strings.HasSuffix(p, "_test.go") || strings.HasSuffix(p, "verif_hooks.go") || strings.HasSuffix(p, "/execution.go") {
+			return nil
+		}
+		rel := strings.TrimPrefix(p, repo+"/")
+		f := fx.file(rel)
+		if f == nil {
+			return nil
+		}
+		for _, d := range f.Decls {
+			fd, ok := d.(*ast.FuncDecl)
+			if !ok || fd.Body == nil {
+				continue
+			}
+			ast.Inspect(fd.Body, func(n ast.Node) bool {
+				if c, ok := n.(*ast.CallExpr); ok {
+					if se, ok := c.Fun.(*ast.SelectorExpr); ok {
+						switch se.Sel.Name {
+						case "LastError", "LastResult", "AttemptStartTime", "ElapsedAttemptTime", "IsHedge":
+							getters = append(getters, rel+":"+recvName(fd)+"."+fd.Name.Name+" "+srcOf(c.Fun))
+						}
+					}
+				}
+				return true
+			})
+		}
+		return nil
+	})
+	sort.Strings(getters)
+	facts["unlockedGetterCallSites"] = getters
+
 	if len(fx.errs) > 0 {
 		facts["errors"] = fx.errs
 	}
@@ -646,6 +730,14 @@ func extractFacts(repo string) (string, error) {
 	sb.WriteString(fmt.Sprintf("def httpClosesPreviousResponse : Bool := %v\n\n", closesPrev))
 	sb.WriteString("/-- a response's per-attempt context is released when its body is closed (not when the attempt returns) -/\n")
 	sb.WriteString(fmt.Sprintf("def httpReleaseOnBodyClose : Bool := %v\n\n", releaseOnClose))
+	sb.WriteString("/-- accesses `struct.field method R|W` to mutable fields of the shared structs that no mutex, atomic or channel guards -/\n")
+	sb.WriteString("def unguardedAccesses : List String := " + leanStrList(unguarded) + "\n\n")
+	sb.WriteString("/-- user callbacks and foreign locks reached while one of the library's mutexes is held -/\n")
+	sb.WriteString("def callsUnderLock : List String := " + leanStrList(underLock) + "\n\n")
+	sb.WriteString("/-- library call sites of the execution's unlocked getters -/\n")
+	sb.WriteString("def unlockedGetterCallSites : List String := " + leanStrList(getters) + "\n\n")
+	sb.WriteString("/-- call sites that hand the live execution (not a copy) to user code -/\n")
+	sb.WriteString("def liveExecutionToUserCode : List String := " + leanStrList(live) + "\n\n")
 	sb.WriteString("end Failsafe.Generated.Facts\n")
 	if len(fx.errs) > 0 {
 		return sb.String(), fmt.Errorf("%s", strings.Join(fx.errs, "; "))
